@@ -207,6 +207,18 @@ def build(run):
         ("grad(f**3)", lambda: grad(f ** 3)), ("grad(f**g)", lambda: grad((1 + f * f) ** g_)),
     ]
 
+    # one expansion pass over meshes of different geometric dimension (the rulesets are parametrised by gdim: a dispatcher must not
+    # reuse the ruleset of the first Grad it meets)
+    tet = S3.ufl_domain()
+    x3 = ufl.SpatialCoordinate(tet)
+    c2, c3 = ufl.Constant(tri), ufl.Constant(tet)
+    nest += [
+        ("two gdims: div(x2)*div(x3)", lambda: div(x) * div(x3)), ("two gdims: div(x3)*div(x2)", lambda: div(x3) * div(x)),
+        ("two gdims: f*div(x2) + f3*div(x3)", lambda: f * div(x) + f3 * div(x3)), ("two gdims: grad(x3)[2,2] + grad(x2)[1,1]", lambda: grad(x3)[2, 2] + grad(x)[1, 1]),
+        ("two gdims: grad(c3*x3)[i,i] * grad(c2*f)[0]", lambda: grad(c3 * x3)[i, i] * grad(c2 * f)[0]),
+        ("two gdims: div(u)*div(u3)", lambda: div(u) * div(u3)), ("two gdims: div(f3*u3) + div(f*x2)", lambda: div(f3 * u3) + div(f * x)),
+    ]
+
     def pipe(name, mk):
         def thunk():
             e = mk()
